@@ -78,4 +78,103 @@ structure ConformOK (σ : Leaves) (t t' : Rel) : Prop where
   cols : ∀ c, c ∈ t'.columns ↔ c ∈ t.columns
   engine : t'.engine = t.engine
 
+def Rel.isAtom : Rel → Bool
+  | .leaf .. => true
+  | .mat .. => true
+  | .transfer .. => true
+  | _ => false
+
+/-- Trees the SQL engine's tree building is shown sound on: raw trees, coherent Selects whose UNION
+branches are again such trees, and anything built from those.  Every relation the SQL engine's
+factories return for such an input is again one (`treeBuild_sound`), so the theorems compose over
+construction histories. -/
+inductive Good (σ : Leaves) : Rel → Prop
+  | atom (r : Rel) : r.isAtom = true → r.WF → r.Truthful σ → r.engine.kind = .sql → Good σ r
+  | unary (op : UOp) (t : Rel) (c : Cols) : Good σ t → (Rel.unary op t c).WF → Good σ (.unary op t c)
+  | chain (l r : Rel) (c : Cols) : Good σ l → Good σ r → (Rel.binary .chain l r c).WF →
+      Good σ (.binary .chain l r c)
+  | join (j : JoinOp) (l r : Rel) (c : Cols) : Good σ l → Good σ r → (Rel.binary (.join j) l r c).WF →
+      j.pred.columnsRequired.subset (l.columns.union r.columns) = true → l.engine = r.engine →
+      Good σ (.binary (.join j) l r c)
+  | sel (S : Rel) : SelOK σ S → S.engine.kind = .sql →
+      (∀ l r c, S.skipTo = .binary .chain l r c → Good σ l) →
+      (∀ l r c, S.skipTo = .binary .chain l r c → Good σ r) → Good σ S
+
+/-! ### Construction histories inside one SQL engine -/
+
+/-- A history of public factory calls inside one SQL engine: `leaf` = `engine.make_leaf(...)`,
+`op o b` = `o.apply(b)` with default options, `chain a b` = `a.chain(b)`, `join a b p` = `a.join(b, p)`
+(common columns resolved automatically), `mat` = `b.materialized(name)`. -/
+inductive SqlBuild where
+  | leaf (oid : Nat) (cols : Cols) (name : String) (mn : Nat) (mx : Option Nat) (msgs : Nat)
+  | op (o : UOp) (b : SqlBuild)
+  | chain (a b : SqlBuild)
+  | join (a b : SqlBuild) (pred : Pred)
+  | mat (name : String) (b : SqlBuild)
+
+/-- The tree the library builds for a history (`Except.error` = the factory call raises). -/
+def SqlBuild.tree (st : Store) (eng : Engine) : SqlBuild → Except Err Rel
+  | .leaf oid cols name mn mx msgs => .ok (.leaf oid eng cols name mn mx true msgs)
+  | .op o b =>
+    match SqlBuild.tree st eng b with
+    | .error e => .error e
+    | .ok t =>
+      match applyOp st defaultFuel (.u o) t {} with
+      | .error e => .error e
+      | .ok res => .ok (res.get t)
+  | .chain a b =>
+    match SqlBuild.tree st eng a with
+    | .error e => .error e
+    | .ok ta =>
+      match SqlBuild.tree st eng b with
+      | .error e => .error e
+      | .ok tb =>
+        match binaryApply st defaultFuel .chain ta tb with
+        | .error e => .error e
+        | .ok res => .ok (res.get ta tb)
+  | .join a b pred =>
+    match SqlBuild.tree st eng a with
+    | .error e => .error e
+    | .ok ta =>
+      match SqlBuild.tree st eng b with
+      | .error e => .error e
+      | .ok tb =>
+        match Rel.joinWith st ta tb pred true false with
+        | .error e => .error e
+        | .ok res => .ok (res.get ta)
+  | .mat name b =>
+    match SqlBuild.tree st eng b with
+    | .error e => .error e
+    | .ok t =>
+      match materialize st defaultFuel t name with
+      | .error e => .error e
+      | .ok res => .ok (res.get t)
+
+/-- The columns the history promises (specification, not read off the library's tree). -/
+def SqlBuild.cols : SqlBuild → Cols
+  | .leaf _ cols _ _ _ _ => cols
+  | .op o b => o.appliedColumns b.cols
+  | .chain a _ => a.cols
+  | .join a b _ => a.cols.union b.cols
+  | .mat _ b => b.cols
+
+/-- **Direct evaluation of the applied operation sequence**: natural join on the shared key columns
+plus the predicate, concatenation for chain. -/
+def SqlBuild.direct (σ : Leaves) : SqlBuild → List Row
+  | .leaf oid _ _ _ _ _ => σ oid
+  | .op o b => o.sem (o.appliedColumns b.cols) (SqlBuild.direct σ b)
+  | .chain a b => SqlBuild.direct σ a ++ SqlBuild.direct σ b
+  | .join a b pred =>
+    joinRows (Cols.keys (Cols.inter b.cols a.cols)) pred (SqlBuild.direct σ a) (SqlBuild.direct σ b)
+  | .mat _ b => SqlBuild.direct σ b
+
+/-- Preconditions on the history: truthful leaves. -/
+def SqlBuild.ok (σ : Leaves) : SqlBuild → Prop
+  | .leaf oid cols _ mn mx _ =>
+    RowsHaveCols (σ oid) cols ∧ mn ≤ (σ oid).length ∧ (∀ m, mx = some m → (σ oid).length ≤ m)
+  | .op _ b => SqlBuild.ok σ b
+  | .chain a b => SqlBuild.ok σ a ∧ SqlBuild.ok σ b
+  | .join a b _ => SqlBuild.ok σ a ∧ SqlBuild.ok σ b
+  | .mat _ b => SqlBuild.ok σ b
+
 end DafRel
